@@ -293,7 +293,7 @@ def correspondence(ctx):
 def search(ctx, disagreements):
     out = base.search(ctx, disagreements, tag='c11-search', pred=is_c11_reason, gen=generate, script=IMPL)
     try:
-        _, _, jviol = run_join(common.rng('c11-join-search'), 20000, [])
+        _, _, jviol = run_join(common.rng('c11-join-search'), 5000 if not ctx.thorough else 50000, [])
         out += jviol
     except Exception:
         pass
